@@ -61,10 +61,12 @@ class NS:
         s = "0" if self.sys is None else "1 " + " ".join("1" if b else "0" for b in self.sys)
         dat = gi_tokens(self.data) if self.data is not None else ""
         r = self.route
-        if r in ("N", "F", "Q"):
+        if r in ("N", "F", "Q", "B"):
             return f"{r} {int(self.pure)} {n} {p} {s} {dat}"
         if r in ("C", "H"):
             return f"{r} {int(self.pure)} {int(self.inverse)} {n} {p} {dat}"
+        if r == "S":
+            return f"S {self.d} {dat}"
         return f"{r} {self.d}"
 
     def _arr(self):
@@ -88,6 +90,10 @@ class NS:
             return qn.QuantumChannel.from_operator(self._arr().copy(), self.part, inverse=self.inverse, pure=self.pure, backend=nb)
         if r == "Q":
             return qn.QuantumChannel(self._arr().copy(), self.part, self.sys, pure=self.pure, backend=nb)
+        if r == "B":
+            return qn.QuantumComb(self._arr().copy(), self.part, pure=self.pure, backend=nb)
+        if r == "S":
+            return qn.QuantumChannel.from_operator(self._arr().copy(), backend=nb)
         if r == "I":
             return qn.IdentityChannel(self.d, backend=nb)
         return qn.TraceOperation(self.d, backend=nb)
@@ -105,6 +111,10 @@ class NS:
             return f"QuantumChannel.from_operator({a}, {self.part!r}, inverse={self.inverse}, pure={self.pure}, backend=nb)"
         if r == "Q":
             return f"QuantumChannel({a}, {self.part!r}, {self.sys!r}, pure={self.pure}, backend=nb)"
+        if r == "B":
+            return f"QuantumComb({a}, {self.part!r}, pure={self.pure}, backend=nb)"
+        if r == "S":
+            return f"QuantumChannel.from_operator({a}, backend=nb)"
         if r == "I":
             return f"IdentityChannel({self.d}, backend=nb)"
         return f"TraceOperation({self.d}, backend=nb)"
@@ -297,6 +307,7 @@ def corr_ctor(ctx):
             if len(part) == 4:
                 add(rand_net(rng, "C", part, pure, inverse=rng.random() < 0.5), f"QuantumComb.from_operator(op, {part}, pure={pure})")
     for d in (1, 2, 3):
+        add(NS("S", (1, d), gi(rng, (d * d,)), shape=(d, d), d=d), f"QuantumChannel.from_operator(rho), dimension {d}")
         add(NS("I", (d, d), d=d), f"IdentityChannel({d})")
         add(NS("R", (d,), d=d), f"TraceOperation({d})")
     s.run()
@@ -424,6 +435,12 @@ def corr_matmul(ctx):
             B = rng.choice(chan_specs(rng, d1, d2, pb))
             s.add_net(f"MATMUL {A.tokens()} {B.tokens()}", lambda A=A, B=B: real_dump(A.build() @ B.build()),
                       f"channel:{'p' if pa else 'f'}{'p' if pb else 'f'}", f"({A.src()}) @ ({B.src()})", f"A @ B with dims {d0}->{d1}->{d2}")
+    # state network fed through a channel (partition (1, d) @ (d, d'))
+    for d0, d1 in itertools.product((1, 2, 3), repeat=2):
+        A = NS("S", (1, d0), gi(rng, (d0 * d0,)), shape=(d0, d0), d=d0)
+        B = rng.choice(chan_specs(rng, d0, d1, rng.random() < 0.5))
+        s.add_net(f"MATMUL {A.tokens()} {B.tokens()}", lambda A=A, B=B: real_dump(A.build() @ B.build()), "state",
+                  f"({A.src()}) @ ({B.src()})", f"state @ channel, dims {d0}->{d1}")
     # refusals: inner dimensions differ / wrong number of legs
     for _ in range(6):
         d0, d1, d1b, d2 = (rng.randint(1, 3) for _ in range(4))
@@ -446,6 +463,110 @@ def corr_matmul(ctx):
             s.add_net(f"MATMUL {S.tokens()} {B.tokens()}", lambda S=S, B=B: real_dump(S.build() @ B.build()), "super",
                       f"({S.src()}) @ ({B.src()})", f"S @ B with super-channel partition {dims}")
     s.run()
+
+
+def gi_isometry(rng, dout, din):
+    """dout x din matrix with orthonormal columns and entries in {0, ±1, ±i} (needs din <= dout)."""
+    rows = rng.sample(range(dout), din)
+    K = np.zeros((dout, din), dtype=complex)
+    for c, r in enumerate(rows):
+        K[r, c] = rng.choice([1, -1, 1j, -1j])
+    return K
+
+
+def kraus_tensor(Ks, din, dout):
+    """T[t0, t1] = Σ K[t1/dout, t0/din] conj K[t1%dout, t0%din] (partition (din, dout))."""
+    T = np.zeros((din * din, dout * dout), dtype=complex)
+    for K in Ks:
+        T += np.einsum("oi,pk->ikop", K, K.conj()).reshape(din * din, dout * dout)
+    return T
+
+
+def corr_pred(ctx):
+    """is_hermitian / is_causal / is_unital: exact Boolean agreement on Gaussian-integer tensors —
+    positives built from (scaled) isometries, unital families, tensor products of channels (4-leg
+    combs), negatives by perturbing one entry, plus arbitrary tensors."""
+    rng = ctx.rng
+    s = Suite(ctx, "net_pred")
+
+    def parse(line):
+        return line.split()
+
+    def same(real, model):
+        return real is not None and list(real) == list(model)
+
+    def show(x):
+        return "raises" if x is None else f"is_hermitian, is_causal, is_unital = {list(x)}"
+
+    def add(ns, what):
+        def real(ns=ns):
+            net = ns.build()
+            h = "1" if net.is_hermitian() else "0"
+            c = ("1" if net.is_causal() else "0") if hasattr(net, "is_causal") else "-"
+            u = ("1" if net.is_unital() else "0") if hasattr(net, "is_unital") and len(net.partition) == 2 else "-"
+            for nm, v in (("hermitian", h), ("causal", c), ("unital", u)):
+                if v != "-":
+                    ctx.stat(f"net_pred:{nm}_{'true' if v == '1' else 'false'}")
+            return [h, c, u]
+
+        def parse_for(line, ns=ns):
+            t = line.split()
+            # the model answers for every even / two-leg partition; the class may not have the method
+            cls_has_causal = ns.route in ("B", "C", "H", "Q", "I", "S")
+            cls_has_unital = ns.route in ("H", "Q", "I", "S")
+            return [t[0], t[1] if cls_has_causal else "-", t[2] if cls_has_unital else "-"]
+
+        s.add("PRED " + ns.tokens(), real, ns.key(), f"net = {ns.src()}\nprint(net.is_hermitian(), getattr(net, 'is_causal', lambda: None)(), getattr(net, 'is_unital', lambda: None)())",
+              what, parse_for, same, show)
+
+    def chan(T, din, dout, route="Q"):
+        return NS(route, (din, dout), T.reshape(-1), False, shape=(din * din, dout * dout))
+
+    for din, dout in itertools.product((1, 2, 3), repeat=2):
+        for _ in range(2):
+            fams = []
+            if din <= dout:
+                fams.append(("isometries", [gi_isometry(rng, dout, din) for _ in range(rng.randint(1, 3))]))
+            if dout <= din:
+                fams.append(("co-isometries", [gi_isometry(rng, din, dout).conj().T for _ in range(rng.randint(1, 2))]))
+            fams.append(("generic", [gi(rng, (dout, din)) for _ in range(rng.randint(1, 2))]))
+            for label, Ks in fams:
+                T = kraus_tensor(Ks, din, dout)
+                add(chan(T, din, dout, rng.choice(["Q", "B"])), f"channel object of a {label} Kraus family, dims {din}->{dout}")
+                T2 = T.copy()
+                T2[rng.randrange(T.shape[0]), rng.randrange(T.shape[1])] += rng.choice([1, 1j, -1])
+                add(chan(T2, din, dout, rng.choice(["Q", "B"])), f"perturbed channel object ({label}), dims {din}->{dout}")
+        add(rand_net(rng, "Q", (din, dout), True), f"pure channel object, dims {din}->{dout}")
+        K = gi_isometry(rng, max(din, dout), min(din, dout))
+        K = K if dout >= din else K.conj().T
+        add(NS("H", (dout, din), K.reshape(-1), True, inverse=True, shape=(dout, din)), f"pure channel object of a (co-)isometry, dims {din}->{dout}")
+    for d in (1, 2, 3):
+        add(NS("I", (d, d), d=d), f"IdentityChannel({d})")
+        rho = gi(rng, (d, d))
+        add(NS("S", (1, d), (rho + rho.conj().T).reshape(-1), shape=(d, d), d=d), f"hermitian state network, dimension {d}")
+        add(NS("S", (1, d), rho.reshape(-1), shape=(d, d), d=d), f"generic state network, dimension {d}")
+    # 4-leg combs: tensor products of two channel objects (causal iff both factors are), perturbed
+    for dims in [(1, 2, 2, 1), (2, 2, 1, 1), (2, 1, 1, 2), (1, 1, 2, 2), (2, 2, 2, 2), (2, 2, 2, 1)][: (6 if ctx.thorough else 5)]:
+        d0, d1, d2, d3 = dims
+        for variant in ("tp", "generic", "perturbed"):
+            def fam(a, b):
+                if variant != "generic" and a <= b:
+                    return [gi_isometry(rng, b, a)]
+                return [gi(rng, (b, a))]
+
+            TP, TQ = kraus_tensor(fam(d0, d1), d0, d1), kraus_tensor(fam(d2, d3), d2, d3)
+            T = np.einsum("ab,cd->abcd", TP, TQ)
+            if variant == "perturbed":
+                idx = tuple(rng.randrange(k) for k in T.shape)
+                T[idx] += 1
+            add(NS("B", dims, T.reshape(-1), False, shape=T.shape), f"4-leg comb P⊗Q ({variant}), partition {dims}")
+    for part in [(2,), (3,), (2, 2), (1, 2), (2, 1, 2)]:
+        add(rand_net(rng, "N", part, False), f"QuantumNetwork with partition {part}: is_hermitian")
+        M = gi(rng, (prod(part), prod(part)))
+        add(NS("F", part, (M + M.conj().T).reshape(-1), False, shape=(prod(part), prod(part))), f"QuantumNetwork from a hermitian operator, partition {part}")
+    s.run()
+    for k in ("causal_true", "causal_false", "unital_true", "unital_false", "hermitian_true", "hermitian_false"):
+        ctx.stats.setdefault("net_pred:" + k, 0)
 
 
 def corr_misc(ctx):
@@ -1003,6 +1124,7 @@ def run_suites(ctx):
         corr_link(ctx)
         corr_matmul(ctx)
         corr_misc(ctx)
+        corr_pred(ctx)
         search_algebra(ctx)
         observe_dimension_check(ctx)
         search_dilation(ctx)
